@@ -118,3 +118,60 @@ def grid_diff(p):
                     observed=dict(control_grid=ts.tolist(), violated_time_rows=infeasible),
                     expected="a grid that is the declared partition satisfies every grid row of the NLP")
     return dict(status="not-reproduced", detail="time rows violated: %s; spec violations: %s" % (infeasible, viol), instance=inst)
+
+
+def history_diff(p):
+    """C13: the OCP reached through a history against the freshly written OCP with the final specification,
+    on the real code: NLP functions at random points, starting point, parameter values, solver."""
+    import casadi as ca
+    from contracts.histories import histories
+    with contextlib.redirect_stdout(io.StringIO()):
+        a, b = histories()[p["history"]](p["method"])
+        a._transcribed
+        b._transcribed
+    oa, ob = a._augmented._method.opti, b._augmented._method.opti
+    probs = []
+    if oa.x.shape != ob.x.shape or oa.p.shape != ob.p.shape or oa.g.shape != ob.g.shape:
+        probs.append("problem sizes differ: x %s/%s p %s/%s g %s/%s" % (oa.x.shape, ob.x.shape, oa.p.shape, ob.p.shape, oa.g.shape, ob.g.shape))
+    else:
+        rs = np.random.RandomState(p.get("seed", 0))
+        Fa = ca.Function("Fa", [oa.x, oa.p], [oa.f, oa.g, oa.lbg, oa.ubg])
+        Fb = ca.Function("Fb", [ob.x, ob.p], [ob.f, ob.g, ob.lbg, ob.ubg])
+        pa = np.array(oa.debug.value(oa.p, oa.value_parameters())).reshape(-1) if oa.p.numel() else np.zeros(0)
+        pb = np.array(ob.debug.value(ob.p, ob.value_parameters())).reshape(-1) if ob.p.numel() else np.zeros(0)
+        if not np.allclose(pa, pb, equal_nan=True):
+            probs.append("parameter values differ: %s vs fresh %s" % (pa.tolist(), pb.tolist()))
+        for _ in range(2):
+            xv = rs.uniform(0.3, 1.4, size=oa.x.numel())
+            ra = [np.array(v).reshape(-1) for v in Fa(xv, pb)]
+            rb = [np.array(v).reshape(-1) for v in Fb(xv, pb)]
+            for nm, u, v in zip(("objective", "g", "lbg", "ubg"), ra, rb):
+                if not np.allclose(u, v, rtol=1e-9, atol=1e-9, equal_nan=True):
+                    probs.append("%s differs from the fresh OCP's at x=%s" % (nm, np.round(xv, 3).tolist()))
+                    break
+        ia = np.array(oa.debug.value(oa.x, oa.initial())).reshape(-1)
+        ib = np.array(ob.debug.value(ob.x, ob.initial())).reshape(-1)
+        if not np.allclose(ia, ib):
+            probs.append("starting point differs: %s vs fresh %s" % (np.round(ia, 4).tolist(), np.round(ib, 4).tolist()))
+    sa = (a._augmented._method._solver, a._augmented._method._solver_options)
+    sb = (b._augmented._method._solver, b._augmented._method._solver_options)
+    if sa != sb:
+        probs.append("solver settings differ: %r vs fresh %r" % (sa, sb))
+    if probs:
+        return dict(status="confirmed", failing_input=dict(history=p["history"], method=p["method"]), problems=probs)
+    return dict(status="not-reproduced", detail="history and fresh OCP agree on the real code")
+
+
+def fault_probe(p):
+    """C20: does the real code reject the ill-posed specification (at the latest in solve)?"""
+    from contracts.faults import faults
+    try:
+        with contextlib.redirect_stdout(io.StringIO()):
+            ocp = faults()[p["fault"]](p["method"])
+            if ocp is None:
+                return dict(status="not-reproduced", detail="fault not applicable for this method")
+            ocp.solve()
+    except Exception as e:
+        return dict(status="not-reproduced", detail="rejected with %s: %s" % (type(e).__name__, str(e)[:150]))
+    return dict(status="confirmed", failing_input=dict(fault=p["fault"], method=p["method"]),
+                observed="declared, transcribed and solved without any exception", expected="an exception at declaration or at the latest in solve()")
